@@ -275,7 +275,8 @@ class UnView(Operation):
         # dℒ/d(base) = [0., 0., g2]
         # dℒ/d(view) = [g0, g1]
         if index == 0:  # compute dℒ/d(base)
-            grad = grad.copy()
+            # (keeps the memory layout, so that the view-functions produce views)
+            grad = grad.copy(order="K")
             grad_view = grad
             for fn in self._view_fn_seq:
                 grad_view = fn(grad_view)
